@@ -280,11 +280,12 @@ Fixpoint positions (ws : list str) (toks : list stok) (line col : N) : list (N *
 (* ------------------------------------------------------------------ stage 2: two-character operators *)
 Inductive stok2 := TName (w : str) | TOp (c : N) | TOp2 (a b : N).
 
-(* the operators combineOperators builds from one adjacent pair without looking further:
-   == != <= >= += -= *= /= %= |= ^=  || && :: ->   (shifts, ++ --, and-assign, ellipsis: not in this theorem) *)
+(* the two-character operators of combineOperators:
+   == != <= >= += -= *= /= %= |= ^=  || && :: ->  shifts  ++ --   (shift-assign, and-assign, ellipsis: not in this theorem) *)
 Definition S2 : list (N * N) :=
   [(61, 61); (33, 61); (60, 61); (62, 61); (43, 61); (45, 61); (42, 61); (47, 61); (37, 61); (124, 61); (94, 61);
-   (124, 124); (38, 38); (58, 58); (45, 62)].
+   (124, 124); (38, 38); (58, 58); (45, 62);
+   (60, 60); (62, 62); (43, 43); (45, 45)].               (* shifts and ++ --: with the context conditions of ctx_ok *)
 Definition op2_ok (a b : N) : bool := existsb (fun p => (fst p =? a) && (snd p =? b)) S2.
 
 Definition stok2_str (t : stok2) : str := match t with TName w => w | TOp c => [c] | TOp2 a b => [a; b] end.
@@ -335,4 +336,22 @@ Fixpoint positions2 (ws : list str) (toks : list stok2) (line col : N) : list (N
       let '(l1, c1) := adjust w line col in
       (l1, c1) :: positions2 ws' r l1 (c1 + len (stok2_str t))
   | _, _ => []
+  end.
+
+(* context conditions of combineOperators for shifts and ++ --:
+   a shift directly followed (whatever separates them) by a lone = is read as shift-assign;
+   ++ / -- is not built next to a number token (1 ++ 2 stays + +) *)
+Definition head_op (t : stok2) : N := match t with TName _ => 0 | TOp c => c | TOp2 a _ => a end.
+Definition is_num_tok (t : stok2) : bool := match t with TName w => is_number w | _ => false end.
+Definition is_shift (t : stok2) : bool :=
+  match t with TOp2 a b => ((a =? 60) && (b =? 60)) || ((a =? 62) && (b =? 62)) | _ => false end.
+Definition is_incdec (t : stok2) : bool :=
+  match t with TOp2 a b => ((a =? 43) && (b =? 43)) || ((a =? 45) && (b =? 45)) | _ => false end.
+Fixpoint ctx_ok (prevnum : bool) (toks : list stok2) : bool :=
+  match toks with
+  | [] => true
+  | t :: r =>
+      (negb (is_shift t) || match r with b :: _ => negb (head_op b =? 61) | [] => true end) &&
+      (negb (is_incdec t) || (negb prevnum && match r with b :: _ => negb (is_num_tok b) | [] => true end)) &&
+      ctx_ok (is_num_tok t) r
   end.
